@@ -68,6 +68,7 @@ PURE_BUILTINS = {
     "__builtin_popcountl": lambda x: bin(x & (2 ** 64 - 1)).count("1"),
     "__builtin_popcountll": lambda x: bin(x & (2 ** 64 - 1)).count("1"),
     "abs": abs, "labs": abs, "llabs": abs,
+    "__builtin_expect": lambda x, e: x,
 }
 
 
